@@ -570,6 +570,7 @@ def _r6(repo: Repo, ctx) -> None:
         raise AnalysisError(f'C12.R8: only {n_f} common-type folds found')
     _r9(repo, ctx)
     _r10(repo, ctx)
+    _r11(repo, ctx)
 
 
 def _roots(fn_node: ast.AST, name: str, params: Set[str],
@@ -791,3 +792,76 @@ def _r10(repo: Repo, ctx) -> None:
                    f'{fc.module.rel()}:{c.lineno}', sample=src[:50])
     if n < 1:
         raise AnalysisError('C12.R10: from_subtypes call not found')
+
+
+
+def _r11(repo: Repo, ctx) -> None:
+    """C12.R11 element-wise comparisons of two collection types compare the
+    number of elements first.  `zip` stops at the shorter operand: a
+    subtype / distance / compatibility test that walks
+    `zip(a.get_subtypes(), b.get_subtypes())` of two *different* types
+    without a length comparison answers for the common prefix only, so
+    `tuple<int64, str>` passes for `tuple<int64>` -- an argument of the wrong
+    arity is accepted without a cast and the call is typed with the
+    parameter's tuple type.  Most siblings in edb/schema/types.py compare
+    `len(..)` first; the rule demands it of all of them."""
+    ctx.floor('C12.R11', 6)
+    m = repo.module('edb.schema.types')
+    n = 0
+    SUB = ('get_subtypes', 'iter_subtypes', 'get_element_types')
+
+    def origin(fn, e):
+        """receiver text of the subtype-list expression e (through a
+        single-assignment local), or None"""
+        for _ in range(3):
+            if isinstance(e, ast.Call) and isinstance(
+                    e.func, ast.Attribute) and e.func.attr in SUB:
+                return norm(e.func.value)
+            if isinstance(e, ast.Call) and isinstance(
+                    e.func, ast.Name) and e.func.id in ('list', 'tuple') \
+                    and e.args:
+                e = e.args[0]
+                continue
+            if isinstance(e, ast.Name):
+                defs = [a.value for a in ast.walk(fn) if isinstance(
+                    a, ast.Assign) and any(isinstance(t, ast.Name) and
+                                           t.id == e.id for t in a.targets)]
+                if len(defs) == 1:
+                    e = defs[0]
+                    continue
+            return None
+        return None
+    seen_z = set()
+    for f in repo._funcs_of(m):
+        for z in ast.walk(f.node):
+            if not (isinstance(z, ast.Call) and norm(z.func) == 'zip'
+                    and len(z.args) == 2) or id(z) in seen_z:
+                continue
+            seen_z.add(id(z))
+            top = f
+            while top.parent is not None:
+                top = top.parent
+            oa, ob = origin(top.node, z.args[0]), origin(top.node, z.args[1])
+            if oa is None or ob is None or oa == ob:
+                continue
+            # used to decide something (not to build a mapping)
+            if any(k.arg == 'strict' for k in z.keywords):
+                continue
+            txt = norm(top.node)
+            names = [norm(a) for a in z.args]
+            guarded = any(
+                isinstance(c, ast.Compare) and norm(c).count('len(') >= 2
+                for c in ast.walk(top.node))
+            n += 1
+            ctx.saw(top)
+            ctx.ob('C12.R11', f'{top.qualname.split(".", 3)[-1]}:'
+                   f'zip-arity@{names[0][:24]}', guarded,
+                   f'{top.name} walks zip({names[0][:40]}, {names[1][:40]}) '
+                   f'of two different collection types without comparing '
+                   f'their lengths: the answer is for the common prefix '
+                   f'only (tuple<int64, str> passes for tuple<int64>)',
+                   f'{f.module.rel()}:{z.lineno}',
+                   sample='len(a) == len(b) checked first')
+    if n < 6:
+        raise AnalysisError(f'C12.R11: only {n} element-wise comparisons '
+                            f'of two subtype lists found')
